@@ -1,11 +1,11 @@
 package rules
 
 import (
-	"regexp"
 	"fmt"
 	"go/token"
 	"go/types"
 	"reflect"
+	"regexp"
 	"sort"
 	"strings"
 
